@@ -83,7 +83,23 @@ class LBatch(A.BatchBase):
     def _raise(self, p):
         if p.get("base"):
             raise SimBaseError("fe:%d" % self.bid)
+        if self.W.frozen:
+            raise FrozenError("fe:%d" % self.bid)
         raise SimError("fe:%d" % self.bid)
+
+
+class FrozenError(SimError):
+    """An immutable exception object (frozen dataclass / attrs style): no attribute can be set on
+    it once it is built. A batch only stores and re-raises the error of its flush body."""
+
+    def __init__(self, tag):
+        SimError.__init__(self, tag)
+        object.__setattr__(self, "_sealed", True)
+
+    def __setattr__(self, name, value):
+        if getattr(self, "_sealed", False) and not name.startswith("__"):
+            raise AttributeError("cannot assign to field %r of a frozen exception" % name)
+        object.__setattr__(self, name, value)
 
 
 class _World(object):
@@ -95,6 +111,8 @@ class _World(object):
         self.out = []
         self.ev = 0
         self.dbg_own = {}
+        self.frozen = False
+        self.dbg_name = "c11"
         if debug:
             A.batching._debug_batch_state.batches.clear()
         else:
@@ -102,7 +120,7 @@ class _World(object):
 
     def new_item(self, target):
         if self.debug:
-            it = A.batching.DebugBatchItem("c11", "v:%d" % len(self.items))
+            it = A.batching.DebugBatchItem(self.dbg_name, "v:%d" % len(self.items))
             b = it.batch
             if not any(x is b for x in self.batches):
                 self.batches.append(b)
@@ -205,7 +223,10 @@ class C11(object):
             if op[0] == "cancel" and op[2] is True and (n_ + op[1]) % 3 == 0:
                 op[2] = "base"
         # one history in four: every exception instance user code raises or passes in is falsy
-        case["falsy_errors"] = zlib.crc32(repr(sorted(case.items())).encode()) % 4 == 0
+        dg = zlib.crc32(repr(sorted(case.items())).encode())
+        case["falsy_errors"] = dg % 4 == 0
+        case["frozen_errors"] = (dg // 4) % 3 == 0
+        case["debug_name_none"] = (dg // 12) % 3 == 0
         return case
 
     def sample(self, case, r):
@@ -271,6 +292,9 @@ class C11(object):
         real.reset_world()
         prog.FALSY[0] = bool(case.get("falsy_errors"))
         W = _World(case.get("plans") or [{}], bool(case.get("debug")))
+        W.frozen = bool(case.get("frozen_errors"))
+        if case.get("debug_name_none"):
+            W.dbg_name = None  # DebugBatchItem's batch_name may be any hashable, also None
         out = W.out
         refb = []  # RefBatch per real batch index
         refi = []  # dict(batch=idx, out=None) per item
